@@ -279,6 +279,57 @@ func report(id, tier string, ps *PropSpec, results []*RunResult, loadT, wall tim
 			}
 		}
 	}
+	// re-decide a sample of the discharged obligations with the other installed solvers
+	crossN, crossAgree := 0, 0
+	if os.Getenv("VERIF_NOCROSS") == "" {
+		type job struct{ c crossSample }
+		var jobs []crossSample
+		for _, r := range results {
+			for i, c := range r.Cross {
+				if i < 6 {
+					jobs = append(jobs, c)
+				}
+			}
+		}
+		if len(jobs) > 24 {
+			jobs = jobs[:24]
+		}
+		type out struct {
+			c        crossSample
+			r1, r2 string
+		}
+		ch := make(chan out, len(jobs))
+		for _, c := range jobs {
+			go func(c crossSample) {
+				var lines []string
+				for _, l := range strings.Split(c.script, "\n") {
+					if strings.HasPrefix(l, "(set-option :timeout") {
+						continue
+					}
+					lines = append(lines, l)
+				}
+				sc := strings.Join(lines, "\n")
+				ch <- out{c, crossCheck(sc, []string{"z3-new", "-in"}, 60), crossCheck("(set-logic ALL)\n"+sc, []string{"cvc5", "--incremental"}, 60)}
+			}(c)
+		}
+		for range jobs {
+			o := <-ch
+			crossN++
+			ok := true
+			for _, r := range []string{o.r1, o.r2} {
+				if r == "unknown" {
+					continue // the other solver timed out: no information
+				}
+				if r != o.c.want {
+					ok = false
+					inconclusive = append(inconclusive, fmt.Sprintf("%s: solver disagreement on a discharged obligation: z3=%s z3-new=%s cvc5=%s", o.c.harness, o.c.want, o.r1, o.r2))
+				}
+			}
+			if ok {
+				crossAgree++
+			}
+		}
+	}
 	sort.Strings(allFuncs)
 	sort.Strings(allStubs)
 	sort.Strings(knownLines)
@@ -324,6 +375,9 @@ func report(id, tier string, ps *PropSpec, results []*RunResult, loadT, wall tim
 			"solver_queries":                solverQ,
 			"solver_time_s":                 solverT.Seconds(),
 			"solvers":                       solversUsed(results),
+			"cross_checked_obligations":     crossN,
+			"cross_check_agreed":            crossAgree,
+			"cross_check_solvers":           []string{"z3-new 5.1.0", "cvc5 1.0.3"},
 			"functions_encoded":             allFuncs,
 			"functions_encoded_count":       len(allFuncs),
 			"stubs_hit":                     allStubs,
